@@ -187,4 +187,54 @@ META = {
                  "s2n-quic-transport); the path manager is modelled for the active path only. Known finding F14 (expired-unconfirmed IDs unroutable)."),
         "technique": "Lean 4 invariant proofs over connection-ID registry models + end-to-end frame/routing trace oracle cross-checked with a Lean trace acceptor",
     },
+
+    "C04": {
+        "category": "proof",
+        "text": ("Lean theorems over a receive-side model (stream and connection flow controllers, receive stream, stream-count controller, "
+                 "stream-state checks, per-space frame table): every error the model returns is justified by a committed violation with a code "
+                 "RFC 9000 allows for it (rejection_sound), violations in the covered shapes are rejected with an allowed code and the offending "
+                 "packet contributes only its legal prefix, the advertised stream / connection credit never exceeds what the application read "
+                 "plus the configured window for all histories (hence buffering is bounded), and the per-space frame table extracted from the "
+                 "code equals RFC 9000 Table 3. The full-strength 'every violation is rejected' is false of the code in the classes recorded as "
+                 "known findings (proved counterexamples). Tie: the frame table and the error codes at each check are re-extracted with bridge "
+                 "lemmas; ~220 adversarial-peer end-to-end runs (about 90 attack shapes incl. exact-limit controls, both roles, Initial/"
+                 "Handshake/1-RTT spaces) are judged by an RFC-side oracle (right error code, no offending byte delivered, credit bound on "
+                 "every MAX_* frame) and every packet each victim processed is replayed through the Lean model, which must take the same "
+                 "accept/reject(code) decision."),
+        "note": ("Trusted: Lean kernel (standard axioms), tools/extract.py, vh-e2e harness, python RFC error table and oracle. No in-crate "
+                 "differential (private crate): tie is G + T. The send half of streams and the connection-ID registries are not in this model."),
+        "technique": "Lean 4 table/invariant theorems over the receive-side model + regenerated frame-table bridge + adversarial end-to-end runs replayed through the model",
+    },
+    "C17": {
+        "category": "proof",
+        "text": ("PARTIAL. An operational release/acquire semantics (per-location message histories, thread views, racy non-atomic accesses = "
+                 "failure) is defined in Lean; the SPSC producer/consumer/close/drop step programs are transcribed by hand with the ordering of "
+                 "every atomic operation a parameter. For the orderings the source has, proved by induction over all interleavings and all "
+                 "stale-read choices, any capacity >= 2, any number of items: no data race on a slot, no unwritten/half-written slot read, "
+                 "FIFO exactly-once delivery, and no lost wake-up for the check-register-check waiter against any notifier that wakes after its "
+                 "write; weakened orderings and a reordered handshake are refuted by proved counterexamples. Tie: all 23 atomic operations "
+                 "(file, fn, field, op, Ordering) and the load/wake/register call order of 15 functions are re-extracted and must equal the "
+                 "proved table (a weakened ordering breaks an obligation, and a bounded search of the machine then yields a failing schedule); "
+                 "the same step programs run single-threaded against the real channel; the crate's own loom scenarios run on the real code as "
+                 "bounded support."),
+        "note": ("The theorem is about an RA semantics we define (SeqCst as AcqRel, no SC fences, no consume, no out-of-thin-air), not the full "
+                 "C11 model; AtomicWaker is assumed linearizable; sync/cursor.rs data path, socket/ring.rs and wakeup_queue.rs are covered only "
+                 "through the abstract handshake and the ordering bridge; loom is bounded model checking and is never counted as proof."),
+        "technique": "Lean 4 induction over all interleavings of an operational release/acquire machine + regenerated atomic-ordering table bridge + single-threaded differential + loom support",
+    },
+    "C18": {
+        "category": "proof",
+        "text": ("PARTIAL (cryptographic primitives assumed ideal). Lean theorems: all six dc packet kinds round-trip for all field values and "
+                 "payloads, the encoders emit exactly an independently written field table (from the Wireshark dissector), decoding is total, "
+                 "for datagram / control / StaleKey / ReplayDetected and non-retransmitted stream packets every wire byte reaches the AEAD/MAC "
+                 "as AAD, ciphertext or tag (so any change is rejected under the ideal-primitive assumption), genuine packets are accepted, and "
+                 "for every map state a packet that does not authenticate leaves the path-secret map, key ids and handshake requests unchanged; "
+                 "StaleKey only advances (fetch_max). Two classes where a changed header byte is still accepted are proved as counterexamples "
+                 "and recorded as known findings. Tie: 94 tag/mask/length constants re-extracted with bridge lemmas; the Lean driver is run "
+                 "against the real encoders/decoders with real aws-lc keys (both cipher suites, every byte position x several masks, "
+                 "truncated/extended tags, random byte strings) and against a real path::secret::Map reached through the production entry points."),
+        "note": ("Trusted: Lean kernel (standard axioms), tools/extract.py, vh-dc harness, python oracles. AEAD/HMAC are assumed ideal (exercised, "
+                 "not verified); hash-table internals, cleaner thread, capacity eviction of the map are not modelled."),
+        "technique": "Lean 4 round-trip / byte-coverage / no-state-change theorems + regenerated-constant bridges + differential correspondence incl. exhaustive single-byte tampering",
+    },
 }
